@@ -124,3 +124,13 @@ def features(text):
     if "\\\n" in text:
         f.append("bsnl")
     return f
+
+
+def scan_states_on():
+    """Switch on the abstract scanner-transition census of the tracer (evidence only)."""
+    TRACER.scan_states = set()
+
+
+def scan_states_flush(ctx):
+    for s in TRACER.scan_states or ():
+        ctx.state("scan:" + s)
